@@ -136,13 +136,13 @@ Proof.
   destruct i; cbn [zupd map]; [now rewrite H|]. now rewrite IH.
 Qed.
 
-Lemma find_app (h : A -> bool) l1 l2 :
+Lemma Qfind_app (h : A -> bool) l1 l2 :
   find h (l1 ++ l2) = match find h l1 with Some x => Some x | None => find h l2 end.
 Proof.
   induction l1 as [|x t IH]; [reflexivity|]. cbn [app find]. destruct (h x); [reflexivity|apply IH].
 Qed.
 
-Lemma find_none (h : A -> bool) l : Forall (fun x => h x = false) l -> find h l = None.
+Lemma Qfind_none (h : A -> bool) l : Forall (fun x => h x = false) l -> find h l = None.
 Proof.
   induction 1 as [|x t Hx Ht IH]; [reflexivity|]. cbn [find]. now rewrite Hx.
 Qed.
@@ -504,22 +504,23 @@ Proof.
   assert (Hst : map stat (upd_entry (q_data q) key (add_trials (-1))) = map stat es).
   { rewrite map_upd_entry; auto. apply (inv_stat _ I). }
   destruct (entry_facts _ _ _ Hst He) as (L1 & L2 & dl' & N1 & N2 & N3 & N4).
-  assert (dl' = dl) by congruence. subst dl'.
+  assert (Hdd : dl' = dl) by (rewrite N1 in Hdl; injection Hdl; auto). rewrite Hdd in N2, N3, N4.
   destruct I as [I1 I2 I3 I4 I5 I6 I7]. constructor.
-  - congruence.
-  - lia.
-  - unfold src_ok. rewrite F3, F4. repeat split; auto; lia.
+  - rewrite F6. exact I1.
+  - rewrite F4. exact Hdl0.
+  - unfold src_ok. rewrite F3, F4. split; [split; [apply Z.le_refl|exact L1]|].
+    split; [symmetry; exact L2|exact N4].
   - rewrite F2. rewrite !map_upd_entry; auto.
-  - congruence.
+  - rewrite F1. exact I5.
   - rewrite F8. apply Forall_forall. intros x Hx. apply D9 in Hx. rewrite C3 in Hx.
     rewrite Forall_forall in I6. auto.
   - unfold pol_ok in *. destruct p eqn:Ep; auto.
     rewrite C1, I5 in D10. destruct D10 as [D10 D11]. destruct I7 as [I7 I8].
-    split; [congruence|]. rewrite F9, D11, C9.
+    split; [rewrite F8, D10, C3; exact I7|]. rewrite F9, D11, C9.
     assert (Hc : q_complete q = false).
     { destruct (q_complete q) eqn:Ec; [|reflexivity].
       assert (is_empty_state q) by (unfold is_empty_state; rewrite I5; exact Ec).
-      apply (next_key_empty all_rep) in H0. congruence. }
+      apply (next_key_empty all_rep) in H0. rewrite H0 in Hk. discriminate. }
     rewrite Hc. cbn [orb]. apply all_done_trials. rewrite F2, D2, C2.
     rewrite (map_upd_entry e_trials _ key adv_delay); auto.
 Qed.
@@ -536,7 +537,7 @@ Proof.
     + injection H as <- <- <-. rewrite Qzlen_zrange; lia.
   - destruct (q_delay q >? 0) eqn:E.
     + injection H as <- <- <-. rewrite zlen_repeat; lia.
-    + destruct (next_trial all_rep q); try discriminate. injection H as <- <- <-. rewrite zlen_nil. lia.
+    + destruct (next_trial all_rep q); try discriminate. injection H as <- <- <-. unfold zlen; cbn [length]. lia.
 Qed.
 
 Lemma Inv_step q s q1 out ev : Inv q -> 0 < s -> pop_step all_rep q s = PBok q1 out ev -> Inv q1.
